@@ -1559,3 +1559,7 @@ mod tests {
         assert!(all_null_dict_arr.is_ok())
     }
 }
+
+#[cfg(kani)]
+#[path = "/verif/kani/arrow-array/array/dictionary_array.rs"]
+mod verif_kani;
